@@ -41,7 +41,10 @@ OddAttrs == { [DefFw EXCEPT !.at = a, !.to = "NONE"] : a \in {"FEE", "UNREG", "N
 Attrs == IF ReqSet = "full" THEN CctpAttrs \cup HypAttrs \cup IntAttrs \cup OddAttrs
          ELSE { a \in CctpAttrs : a.dom = 0 } \cup { a \in HypAttrs : a.dom = 1 /\ a.rcp = "R_A" /\ a.gas = 77 } \cup IntAttrs \cup OddAttrs
 ActSets == { <<>>, <<FeeAct(<<Bps(1000, "F1")>>)>> }
-OddActs == { <<SwapAct>>, <<[id |-> "UNSUPPORTED", at |-> "FEE", fees |-> <<>>]>>, <<[id |-> "A7", at |-> "FEE", fees |-> <<>>]>>,
+OddActs == { <<SwapAct>>,
+             \* an identifier without a controller carrying attributes another controller would accept
+             <<[id |-> "SWAP", at |-> "FEE", fees |-> <<Bps(1000, "F1")>>]>>, <<[id |-> "UNSUPPORTED", at |-> "FEE", fees |-> <<Bps(1000, "F1")>>]>>,
+             <<[id |-> "A7", at |-> "FEE", fees |-> <<Bps(1000, "F1")>>]>>, <<[id |-> "UNSUPPORTED", at |-> "FEE", fees |-> <<>>]>>, <<[id |-> "A7", at |-> "FEE", fees |-> <<>>]>>,
              <<[id |-> "N2", at |-> "FEE", fees |-> <<>>]>>, <<[id |-> "AUNKNOWN", at |-> "FEE", fees |-> <<>>]>>,
              \* several different identifiers each repeated (which one the refusal names must not depend on map order)
              <<FeeAct(<<>>), [id |-> "SWAP", at |-> "FEE", fees |-> <<>>], [id |-> "SWAP", at |-> "FEE", fees |-> <<>>], FeeAct(<<>>)>>,
